@@ -23,6 +23,11 @@ struct Cfg {
 static const double MAG_UNIFORM = 0.4, MAG_GAUSS = 0.3;
 static const int MAXN = 3, MAXD = 2;
 static std::vector<double> init_state(const Cfg &c){ std::vector<double> s((size_t)(c.n * c.d)); for(int i=0;i<c.n;i++) for(int j=0;j<c.d;j++) s[(size_t)(i * c.d + j)] = (j == 0) ? 0.1 + 0.3 * i : -0.2 + 0.25 * i; return s; }
+// a second initial state inside both non-empty domains (used by the setState edits between two runs)
+static std::vector<double> second_state(const Cfg &c){ std::vector<double> s((size_t)(c.n * c.d)); for(int i=0;i<c.n;i++) for(int j=0;j<c.d;j++) s[(size_t)(i * c.d + j)] = (j == 0) ? 0.55 - 0.2 * i : 0.1 + 0.15 * i; return s; }
+// state edits between two SampleDREAM calls: every public mutator of TasmanianDREAM that is meant for users
+static const int NEDIT = 8;
+static const char *EDITNAME[NEDIT] = {"none", "setState-vector", "setState-callable", "clearPDFvalues", "clearHistory", "setPDFvalues-callable", "setPDFvalues-vector", "expandHistory"};
 // the environment's own domain test and probability function (deterministic)
 static bool my_domain(const Cfg &c, const double *x){
     if (c.dom == 2) return false;
@@ -55,10 +60,12 @@ struct Log {
     const double* x(const Ev &e) const{ return data.data() + e.off; } const double* y(const Ev &e) const{ return data.data() + e.off + e.nx; }
 };
 struct RunObs { std::vector<double> state, pv, hist, hpdf; double rate = 0; size_t nhist = 0; };
-struct Exec { Log log; std::vector<size_t> run_begin; std::vector<RunObs> obs; Str used; std::string thrown; };
+struct EditObs { bool done = false, ready = false; std::vector<double> state; size_t nhist = 0, hist_size = 0; };
+struct Exec { Log log; std::vector<size_t> run_begin, run_end, draws_begin; std::vector<RunObs> obs; EditObs eo; Str used; std::string thrown; };
 typedef std::vector<std::pair<int,int>> Runs;
 
-static void run_library(const Cfg &c, const Runs &runs, const Str &s, Exec &ex){
+// runs the calls on one TasmanianDREAM object; 'edit' (if any) is applied between the first and the second call; start_second: the object is initialised with the second state
+static void run_library(const Cfg &c, const Runs &runs, const Str &s, Exec &ex, int edit = 0, bool start_second = false){
     using namespace TasDREAM;
     Script sc; sc.reset(s);
     Log &log = ex.log; log.ev.reserve(64); log.data.reserve(256);
@@ -69,10 +76,25 @@ static void run_library(const Cfg &c, const Runs &runs, const Str &s, Exec &ex){
     auto user = [&](std::vector<double> &x)->void{ double before[MAXD] = {0, 0}; std::copy_n(x.begin(), std::min<size_t>(x.size(), MAXD), before); double u = rng(); my_user_update(c, x.data(), u); log.add('U', false, before, x.size(), x.data(), x.size()); };
     std::function<double(void)> diff = (c.diff == 0) ? std::function<double(void)>(const_percent<0>) : (c.diff == 1) ? std::function<double(void)>(const_one) : std::function<double(void)>(const_percent<50>);
     TasmanianDREAM state(c.n, c.d);
-    state.setState(init_state(c));
+    state.setState(start_second ? second_state(c) : init_state(c));
     try{
-        for(auto &r : runs){
-            ex.run_begin.push_back(log.ev.size());
+        for(size_t ri=0; ri<runs.size(); ri++){
+            auto &r = runs[ri];
+            if (ri == 1 && edit > 0){
+                std::vector<double> v2 = second_state(c);
+                switch(edit){
+                    case 1: state.setState(v2); break;
+                    case 2: { size_t q = 0; state.setState([&](double *x){ for(int j=0;j<c.d;j++) x[j] = v2[q * (size_t) c.d + (size_t) j]; q++; }); break; }
+                    case 3: state.clearPDFvalues(); break;
+                    case 4: state.clearHistory(); break;
+                    case 5: state.setPDFvalues(pdf); break;
+                    case 6: { std::vector<double> vals((size_t) c.n); const std::vector<double> &cur = state.getChainState(); for(int i=0;i<c.n;i++) vals[(size_t) i] = my_pdf(c, &cur[(size_t)(i * c.d)]); state.setPDFvalues(vals); break; }
+                    case 7: state.expandHistory(2); break;
+                    default: break;
+                }
+                ex.eo.done = true; ex.eo.ready = state.isPDFReady(); ex.eo.state = state.getChainState(); ex.eo.nhist = state.getNumHistory(); ex.eo.hist_size = state.getHistory().size();
+            }
+            ex.run_begin.push_back(log.ev.size()); ex.draws_begin.push_back(sc.pos);
             if (c.upd == 3){
                 if (c.form) SampleDREAM<logform>(r.first, r.second, pdf, inside, state, user, diff, rng); else SampleDREAM<regform>(r.first, r.second, pdf, inside, state, user, diff, rng);
             }else{
@@ -81,9 +103,9 @@ static void run_library(const Cfg &c, const Runs &runs, const Str &s, Exec &ex){
             }
             ex.obs.emplace_back(); RunObs &o = ex.obs.back(); o.state = state.getChainState(); if (state.isPDFReady()) for(int i=0;i<c.n;i++) o.pv.push_back(state.getPDFvalue((size_t) i));
             o.hist = state.getHistory(); o.hpdf = state.getHistoryPDF(); o.rate = state.getAcceptanceRate(); o.nhist = state.getNumHistory();
+            ex.run_end.push_back(log.ev.size());
         }
     }catch(std::exception &e){ ex.thrown = e.what(); }
-    ex.run_begin.push_back(log.ev.size());
     ex.used = sc.used;
 }
 
@@ -96,7 +118,24 @@ struct Ref {
     std::vector<double> S, pv; bool pv_ready = false; std::vector<double> hist, hpdf; long accepted = 0, moves = 0, outside = 0, iters = 0;
     std::string fail_sig, fail_detail; // first lock-step failure
     struct IterRec { double before[MAXN * MAXD], props[MAXN * MAXD]; char in[MAXN], acc[MAXN]; bool collected; size_t draws; }; std::vector<IterRec> its;
-    Ref(const Cfg &cfg, bool rp) : c(cfg), replay(rp){ S = init_state(cfg); its.reserve(8); }
+    Ref(const Cfg &cfg, bool rp, bool start_second = false) : c(cfg), replay(rp){ S = start_second ? second_state(cfg) : init_state(cfg); its.reserve(8); }
+    // documented effect of the edits: setState replaces the chains and leaves the pdf values NOT ready (the next SampleDREAM must call the probability
+    // function on the current state before the first Metropolis test), the history is kept; clearPDFvalues: state kept, not ready; clearHistory: only the
+    // history and the acceptance counter go; setPDFvalues: values (re)computed for the current state; expandHistory: nothing observable
+    bool apply_edit(int e, size_t seg_begin, size_t seg_end){
+        size_t n = (size_t) c.n, d = (size_t) c.d;
+        if (e == 1 || e == 2){ S = second_state(c); pv_ready = false; }
+        else if (e == 3){ pv_ready = false; }
+        else if (e == 4){ hist.clear(); hpdf.clear(); accepted = 0; }
+        else if (e == 5){
+            if (replay){ pos = seg_begin; end = seg_end; if (!expect('P', "probability-call-of-setPDFvalues")) return false; const Ev &ev = log->ev[pos++]; if (ev.nx != n * d || ev.ny != n || !same_bits_n(log->x(ev), S.data(), n * d)) return fail("C15:setPDFvalues-candidates", "setPDFvalues(callable) evaluated " + vstr(log->x(ev), ev.nx) + " instead of the state " + vstr(S)); pv.assign(log->y(ev), log->y(ev) + n); seg_begin = pos; }
+            else { pv.resize(n); for(size_t i=0;i<n;i++) pv[i] = my_pdf(c, &S[i * d]); }
+            pv_ready = true;
+        }
+        else if (e == 6){ pv.resize(n); for(size_t i=0;i<n;i++) pv[i] = my_pdf(c, &S[i * d]); pv_ready = true; }
+        if (replay && seg_begin != seg_end) return fail("C15:edit-makes-callbacks", "the edit made " + std::to_string(seg_end - seg_begin) + " unexpected callbacks");
+        return true;
+    }
     bool fail(const std::string &sig, const std::string &detail){ if (fail_sig.empty()){ fail_sig = sig; fail_detail = detail; } return false; }
     const Ev* peek(){ return (replay && pos < end) ? &log->ev[pos] : nullptr; }
     bool expect(char t, const char *what){ const Ev *e = peek(); if (!e) return fail(std::string("C15:lockstep:missing-") + what, std::string("the library stopped calling back where the model expects ") + what); if (e->t != t) return fail(std::string("C15:lockstep:expected-") + what, std::string("model expects ") + what + " but the library made a callback of kind " + e->t); return true; }
@@ -148,7 +187,7 @@ struct Ref {
     bool run(int burn, int collect){
         size_t n = (size_t) c.n, d = (size_t) c.d;
         if (!pv_ready){
-            if (replay){ if (!expect('P', "initial-probability-call")) return false; const Ev &e = log->ev[pos++]; if (e.nx != n * d || e.ny != n || !same_bits_n(log->x(e), S.data(), n * d)) return fail("C15:initial-pdf-candidates", "initial probability call on " + vstr(log->x(e), e.nx) + " instead of the state " + vstr(S)); pv.assign(log->y(e), log->y(e) + n); }
+            if (replay){ const Ev *pe = peek(); if (!pe || pe->t != 'P') return fail("C15:pdf-values-not-recomputed", std::string("the pdf values are not ready (fresh or re-initialised state, or cleared values): the run has to start with the probability function on the current state, but the library continues with ") + (pe ? std::string(1, pe->t) : std::string("no callback at all"))); const Ev &e = log->ev[pos++]; if (e.nx != n * d || e.ny != n || !same_bits_n(log->x(e), S.data(), n * d)) return fail("C15:initial-pdf-candidates", "initial probability call on " + vstr(log->x(e), e.nx) + " instead of the state " + vstr(S)); pv.assign(log->y(e), log->y(e) + n); }
             else{ pv.resize(n); for(size_t i=0;i<n;i++) pv[i] = my_pdf(c, &S[i * d]); }
             pv_ready = true;
         }
@@ -160,25 +199,32 @@ struct Ref {
 };
 
 // ---------------------------------------------------------------- cases
-struct Case { char kind; Runs runs; Str s; };
+struct Case { char kind; Runs runs; Str s; int edit; int second; }; // kind E: runs[0]; edit; runs[1].  second: the object starts from the second initial state
 static std::string runs_json(const Runs &r){ std::string o = "["; for(size_t i=0;i<r.size();i++){ if (i) o += ","; o += std::to_string(r[i].first) + "," + std::to_string(r[i].second); } return o + "]"; }
-static std::string case_json(const Cfg &c, const Case &k){ return vf::J().s("cfg", c.str()).s("kind", std::string(1, k.kind)).raw("runs", runs_json(k.runs)).raw("rng", str_json(k.s)).s("alphabet", "rng[i] indexes {0,0.25,0.5,0.75,1}; draws past the string answer 0.5; runs = (burn,collect) pairs").str(); }
+static std::string case_json(const Cfg &c, const Case &k){ return vf::J().s("cfg", c.str()).s("kind", std::string(1, k.kind)).raw("runs", runs_json(k.runs)).i("edit", k.edit).s("edit_name", EDITNAME[k.edit]).i("second_start", k.second).raw("rng", str_json(k.s)).s("alphabet", "rng[i] indexes {0,0.25,0.5,0.75,1}; draws past the string answer 0.5; runs = (burn,collect) pairs").str(); }
 
 static std::vector<Case> make_cases(const Cfg &c, long &LA_out){
     std::vector<Case> out; bool th = (g_tier == "thorough"); int len1 = c.len1();
     // A: one iteration, exhaustive answer strings
     int LA = std::min(len1, th ? (c.n <= 2 ? 7 : 6) : 5); LA_out = LA;
-    for(size_t i=0;i<ipow(5, LA);i++) out.push_back({'A', {{0, 1}}, window_string(i, 0, LA)});
-    if (len1 > LA){ int off = len1 - LA; for(size_t i=1;i<ipow(5, LA);i++) out.push_back({'A', {{0, 1}}, window_string(i, off, LA)}); } // window at the end of the iteration (acceptance draws)
+    for(size_t i=0;i<ipow(5, LA);i++) out.push_back({'A', {{0, 1}}, window_string(i, 0, LA), 0});
+    if (len1 > LA){ int off = len1 - LA; for(size_t i=1;i<ipow(5, LA);i++) out.push_back({'A', {{0, 1}}, window_string(i, off, LA), 0}); } // window at the end of the iteration (acceptance draws)
     // B: several iterations, <= k deviations from the default answer
     { int T = th ? 3 : 2; std::vector<Str> ds;
       if (th) deviation_strings(T * len1, 2, ds, 1); else { deviation_strings(T * len1, 1, ds, 1); deviation_strings(len1, 2, ds, 2); } // quick: one deviation anywhere, two within the first iteration
-      for(auto &s : ds) out.push_back({'B', {{0, T}}, s}); }
+      for(auto &s : ds) out.push_back({'B', {{0, T}}, s, 0}); }
     // C: splittings: run(b1,c1) then run(b2,c2) against the single run of the combined length
     { std::vector<Str> ds; deviation_strings(th ? len1 : std::min(len1, 4), 1, ds, 0); int top = 2;
       for(auto &s : ds) for(int b1=0;b1<=top;b1++) for(int c1=0;c1<=top;c1++) for(int b2=0;b2<=top;b2++) for(int c2=0;c2<=top;c2++){
           if (!th && (b1 + c1 + b2 + c2 > 4)) continue;
-          out.push_back({'C', {{b1, c1}, {b2, c2}}, s}); } }
+          out.push_back({'C', {{b1, c1}, {b2, c2}}, s, 0}); } }
+    // E: run(b1,c1); state edit; run(b2,c2) for every splitting and every edit. The first run gets default answers (its consumption is computed by the model),
+    //    the deviations are placed in the second run: quick = default + each symbol at the first acceptance draw, thorough = default + every single deviation in the first iteration
+    { int top = 2; std::vector<size_t> cons(5, 0); for(int T1=0;T1<=4;T1++){ Ref r(c, false); r.sc.reset(Str()); r.run(0, T1); cons[(size_t) T1] = r.roles.size(); }
+      std::vector<Str> ds; if (th) deviation_strings(len1, 1, ds, 0); else { ds.push_back(Str()); int pa = c.n * (2 + c.upd_draws()); for(int a=0;a<NSYM;a++){ if (a == DEF) continue; Str t((size_t)(pa + 1), (unsigned char) DEF); t[(size_t) pa] = (unsigned char) a; ds.push_back(t); } }
+      for(int e=1;e<NEDIT;e++) for(int b1=0;b1<=top;b1++) for(int c1=0;c1<=top;c1++) for(int b2=0;b2<=top;b2++) for(int c2=0;c2<=top;c2++){
+          if (!th && (b1 + c1 + b2 + c2 > 4)) continue;
+          for(auto &t : ds){ if (b2 + c2 == 0 && &t != &ds[0]) continue; Str full(cons[(size_t)(b1 + c1)], (unsigned char) DEF); full.insert(full.end(), t.begin(), t.end()); out.push_back({'E', {{b1, c1}, {b2, c2}}, full, e}); } } }
     return out;
 }
 
@@ -189,18 +235,27 @@ static bool check_exec(const Cfg &c, const Case &k, const Exec &ex, Delta &d, Re
     size_t n = (size_t) c.n, dm = (size_t) c.d; const char *fm = c.form ? "logform" : "regform";
     if (!ex.thrown.empty()){ d.viol("C15:exception", CJ, "SampleDREAM threw: " + ex.thrown); return false; }
     d.transitions += (long) ex.log.ev.size();
-    // direct oracle on the environment log: the probability function only ever sees in-domain points (after the initial state)
-    bool first_p = true;
-    for(auto &e : ex.log.ev){ if (e.t != 'P') continue; if (first_p){ first_p = false; continue; } const double *x = ex.log.x(e); for(size_t m=0;m<e.nx/dm;m++){ d.evals++; if (!my_domain(c, x + m*dm)){ d.viol("C15:pdf-evaluated-outside-domain", CJ, "probability function called on " + vstr(x + m*dm, dm)); return false; } } }
-    size_t prev_hist = 0; uint64_t ch = c.hash();
+    // direct oracle on the environment log: the probability function only ever sees in-domain points
+    // (except when it is asked for the values of the current state: first callback of a run, or setPDFvalues inside an edit)
+    for(size_t q=0;q<ex.log.ev.size();q++){ const Ev &e = ex.log.ev[q]; if (e.t != 'P') continue; bool state_eval = false; for(size_t r=0;r<ex.run_begin.size();r++) if (q == ex.run_begin[r]) state_eval = true; if (ex.run_end.size() >= 1 && ex.run_begin.size() >= 2 && q >= ex.run_end[0] && q < ex.run_begin[1]) state_eval = true; if (state_eval) continue; const double *x = ex.log.x(e); for(size_t m=0;m<e.nx/dm;m++){ d.evals++; if (!my_domain(c, x + m*dm)){ d.viol("C15:pdf-evaluated-outside-domain", CJ, "probability function called on " + vstr(x + m*dm, dm)); return false; } } }
+    size_t prev_hist = 0; uint64_t ch = c.hash(); std::string ctx; // ctx: suffix of the signatures of everything observed after a state edit
+    auto V = [&](const std::string &sig, const std::string &detail){ d.viol(sig + ctx, CJ, detail); };
+    if (ex.obs.size() != k.runs.size() || ex.run_end.size() != k.runs.size()){ d.viol("C15:harness:missing-observation", CJ, "internal: observations missing"); return false; }
     for(size_t r=0;r<k.runs.size();r++){
+        if (r == 1 && k.edit > 0){
+            ctx = std::string(":after-") + EDITNAME[k.edit]; ch = hcomb(ch, (uint64_t) k.edit); ref.log = &ex.log; d.evals += 2;
+            if (!ref.apply_edit(k.edit, ex.run_end[0], ex.run_begin[1])){ V(ref.fail_sig, ref.fail_detail); return false; }
+            if (!ex.eo.done || !same_bits(ex.eo.state, ref.S)){ V("C15:edit-state", "after the edit the chains are at " + vstr(ex.eo.state) + ", expected " + vstr(ref.S)); return false; }
+            if (ex.eo.nhist != ref.hpdf.size() || ex.eo.hist_size != ref.hist.size()){ V("C15:edit-history", "after the edit the history holds " + std::to_string(ex.eo.nhist) + " samples, expected " + std::to_string(ref.hpdf.size())); return false; }
+            prev_hist = ref.hpdf.size();
+        }
         const RunObs &o = ex.obs[r]; int burn = k.runs[r].first, coll = k.runs[r].second;
         // books: exactly collect x chains new samples
         d.evals++;
         if (o.hpdf.size() != prev_hist + (size_t) std::max(coll, 0) * n || o.hist.size() != (prev_hist + (size_t) std::max(coll, 0) * n) * dm || o.nhist != o.hpdf.size()){
-            d.viol("C15:history-growth", CJ, "run " + std::to_string(r) + " (burn " + std::to_string(burn) + ", collect " + std::to_string(coll) + "): history went from " + std::to_string(prev_hist) + " to " + std::to_string(o.hpdf.size()) + " samples (" + std::to_string(o.hist.size()) + " coordinates), chains " + std::to_string(n)); return false; }
+            V("C15:history-growth", "run " + std::to_string(r) + " (burn " + std::to_string(burn) + ", collect " + std::to_string(coll) + "): history went from " + std::to_string(prev_hist) + " to " + std::to_string(o.hpdf.size()) + " samples (" + std::to_string(o.hist.size()) + " coordinates), chains " + std::to_string(n)); return false; }
         // lock-step replay of this run; after every collected iteration the recorded row is compared at once
-        ref.log = &ex.log; ref.pos = ex.run_begin[r]; ref.end = ex.run_begin[r+1]; size_t its0 = ref.its.size(); size_t hrow0 = ref.hist.size() / dm / n; bool reported = false;
+        ref.log = &ex.log; ref.pos = ex.run_begin[r]; ref.end = ex.run_end[r]; size_t its0 = ref.its.size(); size_t hrow0 = ref.hist.size() / dm / n; bool reported = false;
         ref.after_iteration = [&](size_t t)->bool{
             const Ref::IterRec &it = ref.its[t]; if (!it.collected) return true; size_t hrow = ref.hist.size() / dm / n - 1;
             for(size_t i=0;i<n;i++){
@@ -210,29 +265,29 @@ static bool check_exec(const Cfg &c, const Case &k, const Exec &ex, Delta &d, Re
                 if (!same_bits_n(got, want, dm)){
                     const double *old = it.before + i*dm, *prop = it.props + i*dm;
                     std::string cls = (same_bits_n(got, prop, dm) && !it.acc[i]) ? "moved-against-rule" : (same_bits_n(got, old, dm) && it.acc[i]) ? "kept-against-rule" : "wrong-state";
-                    d.viol("C15:metropolis:" + cls + ":" + fm, CJ, "run " + std::to_string(r) + " iteration " + std::to_string(t - its0) + " chain " + std::to_string(i) + ": recorded " + vstr(got, dm) + ", the rule on the logged values gives " + vstr(want, dm) + " (old " + vstr(old, dm) + ", proposal " + vstr(prop, dm) + ", inside=" + std::to_string((int) it.in[i]) + ")");
+                    V("C15:metropolis:" + cls + ":" + fm, "run " + std::to_string(r) + " iteration " + std::to_string(t - its0) + " chain " + std::to_string(i) + ": recorded " + vstr(got, dm) + ", the rule on the logged values gives " + vstr(want, dm) + " (old " + vstr(old, dm) + ", proposal " + vstr(prop, dm) + ", inside=" + std::to_string((int) it.in[i]) + ")");
                     reported = true; return false;
                 }
-                if (!same_bits(o.hpdf[hrow * n + i], ref.hpdf[hrow * n + i])){ d.viol("C15:recorded-pdf-mismatch", CJ, "run " + std::to_string(r) + " iteration " + std::to_string(t - its0) + " chain " + std::to_string(i) + ": recorded probability " + vf::jnum(o.hpdf[hrow*n+i]) + ", model " + vf::jnum(ref.hpdf[hrow*n+i])); reported = true; return false; }
+                if (!same_bits(o.hpdf[hrow * n + i], ref.hpdf[hrow * n + i])){ V("C15:recorded-pdf-mismatch", "run " + std::to_string(r) + " iteration " + std::to_string(t - its0) + " chain " + std::to_string(i) + ": recorded probability " + vf::jnum(o.hpdf[hrow*n+i]) + ", model " + vf::jnum(ref.hpdf[hrow*n+i])); reported = true; return false; }
             }
             return true; };
         bool ok = ref.run(burn, coll); ref.after_iteration = nullptr; (void) hrow0;
-        if (!ok){ if (!reported) d.viol(ref.fail_sig, CJ, "run " + std::to_string(r) + ": " + ref.fail_detail); return false; }
+        if (!ok){ if (!reported) V(ref.fail_sig, "run " + std::to_string(r) + ": " + ref.fail_detail); return false; }
         d.evals += 3;
         if (!same_bits(o.state, ref.S)){
             // name the direction for single-iteration runs (the history is empty when nothing is collected)
             std::string cls = "wrong-state";
             if (ref.its.size() == its0 + 1){ const Ref::IterRec &it = ref.its.back(); for(size_t i=0;i<n;i++){ const double *got = &o.state[i*dm]; if (same_bits_n(got, &ref.S[i*dm], dm)) continue; cls = (same_bits_n(got, it.props + i*dm, dm) && !it.acc[i]) ? "moved-against-rule" : (same_bits_n(got, it.before + i*dm, dm) && it.acc[i]) ? "kept-against-rule" : "wrong-state"; break; } }
-            d.viol("C15:final-state:" + cls + ":" + fm, CJ, "after run " + std::to_string(r) + " the chains are at " + vstr(o.state) + ", the model stepping on the logged values is at " + vstr(ref.S)); return false;
+            V("C15:final-state:" + cls + ":" + fm, "after run " + std::to_string(r) + " the chains are at " + vstr(o.state) + ", the model stepping on the logged values is at " + vstr(ref.S)); return false;
         }
-        if (!same_bits(o.pv, ref.pv)){ d.viol("C15:cached-pdf-mismatch", CJ, "after run " + std::to_string(r) + " cached probabilities " + vstr(o.pv) + ", model " + vstr(ref.pv)); return false; }
+        if (!same_bits(o.pv, ref.pv)){ V("C15:cached-pdf-mismatch", "after run " + std::to_string(r) + " cached probabilities " + vstr(o.pv) + ", model " + vstr(ref.pv)); return false; }
         double want_rate = o.hpdf.empty() ? 0.0 : (double) ref.accepted / (double) o.hpdf.size();
-        if (!same_bits(o.rate, want_rate)){ d.viol("C15:acceptance-counter", CJ, "acceptance rate " + vf::jnum(o.rate) + " but " + std::to_string(ref.accepted) + " proposals were accepted in " + std::to_string(o.hpdf.size()) + " recorded samples"); return false; }
+        if (!same_bits(o.rate, want_rate)){ V("C15:acceptance-counter", "acceptance rate " + vf::jnum(o.rate) + " but " + std::to_string(ref.accepted) + " proposals were accepted in " + std::to_string(o.hpdf.size()) + " recorded samples"); return false; }
         // recorded samples (independent of the model): inside the domain (given an initial state inside), recorded value = pdf(sample)
         for(size_t m=prev_hist; m<o.hpdf.size() && (m+1)*dm <= o.hist.size(); m++){
             d.evals += 2;
-            if (c.dom != 2 && !my_domain(c, &o.hist[m*dm])){ d.viol("C15:recorded-sample-outside-domain", CJ, "recorded sample " + std::to_string(m) + " = " + vstr(&o.hist[m*dm], dm) + " fails the domain test"); return false; }
-            double pv = my_pdf(c, &o.hist[m*dm]); if (!same_bits(pv, o.hpdf[m])){ d.viol("C15:recorded-pdf-not-pdf-of-sample", CJ, "recorded sample " + std::to_string(m) + ": recorded probability " + vf::jnum(o.hpdf[m]) + " but pdf(sample) = " + vf::jnum(pv)); return false; }
+            if (c.dom != 2 && !my_domain(c, &o.hist[m*dm])){ V("C15:recorded-sample-outside-domain", "recorded sample " + std::to_string(m) + " = " + vstr(&o.hist[m*dm], dm) + " fails the domain test"); return false; }
+            double pv = my_pdf(c, &o.hist[m*dm]); if (!same_bits(pv, o.hpdf[m])){ V("C15:recorded-pdf-not-pdf-of-sample", "recorded sample " + std::to_string(m) + ": recorded probability " + vf::jnum(o.hpdf[m]) + " but pdf(sample) = " + vf::jnum(pv)); return false; }
         }
         prev_hist = o.hpdf.size();
         // states: (configuration, consumed answer prefix) at every point where the library state was observed
@@ -247,8 +302,10 @@ static void outcome_of(const Cfg &c, const Exec &ex, const Ref &ref, Delta &d){
     d.dist(hcomb(c.hash(), hcomb(hvec(fin.state), hcomb(hvec(fin.hist), hvec(fin.hpdf, (uint64_t) ref.moves)))));
     char b[64]; snprintf(b, sizeof(b), "moves=%ld/%ld outside=%ld", ref.moves, ref.iters * c.n, ref.outside); d.outcome(b);
 }
+static void exec_edit_case(const Cfg &c, const Case &k, Delta &d);
 static void exec_case(const Cfg &c, const Case &k, Delta &d){
-    if (k.kind != 'C'){ Exec ex; run_library(c, k.runs, k.s, ex); d.execs++; Ref ref(c, true); check_exec(c, k, ex, d, ref); outcome_of(c, ex, ref, d); return; }
+    if (k.kind == 'E'){ exec_edit_case(c, k, d); return; }
+    if (k.kind != 'C'){ Exec ex; run_library(c, k.runs, k.s, ex, 0, k.second != 0); d.execs++; Ref ref(c, true, k.second != 0); check_exec(c, k, ex, d, ref); outcome_of(c, ex, ref, d); return; }
     // splitting: first the single run of the combined length (everything collected, so every iteration is visible), then the two runs
     int b1 = k.runs[0].first, c1 = k.runs[0].second, b2 = k.runs[1].first, c2 = k.runs[1].second, T = b1 + c1 + b2 + c2;
     Case joint{'J', {{0, T}}, k.s}; Exec ej; run_library(c, joint.runs, joint.s, ej); d.execs++;
@@ -266,10 +323,39 @@ static void exec_case(const Cfg &c, const Case &k, Delta &d){
     if (ex.used != ej.used) d.viol("C15:split-run-differs:random-stream", CJ, "the two runs consumed " + std::to_string(ex.used.size()) + " draws, the single run " + std::to_string(ej.used.size()));
 }
 
+// run(b1,c1); edit; run(b2,c2): model-free differential oracles first, then the lock-step replay with the documented effect of the edit
+static void exec_edit_case(const Cfg &c, const Case &k, Delta &d){
+    size_t n = (size_t) c.n, dm = (size_t) c.d; std::string ctx = std::string(":after-") + EDITNAME[k.edit];
+    Exec ex; run_library(c, k.runs, k.s, ex, k.edit); d.execs++;
+    if (ex.thrown.empty() && ex.obs.size() == 2 && ex.draws_begin.size() == 2 && ex.eo.done){
+        const RunObs &fin = ex.obs[1]; size_t p1 = std::min(ex.draws_begin[1], ex.used.size());
+        if (k.edit == 1 || k.edit == 2){
+            // a FRESH object initialised with the second state and fed the answers the second run consumed
+            Case kf{'F', {k.runs[1]}, Str(ex.used.begin() + p1, ex.used.end()), 0, 1}; Exec ef; run_library(c, kf.runs, kf.s, ef, 0, true); d.execs++;
+            Ref rf(c, true, true); if (!check_exec(c, kf, ef, d, rf) || ef.obs.size() != 1) return;
+            const RunObs &fo = ef.obs[0]; d.evals += 4;
+            std::vector<double> newh, newp; if (ex.eo.hist_size <= fin.hist.size() && ex.eo.nhist <= fin.hpdf.size()){ newh.assign(fin.hist.begin() + ex.eo.hist_size, fin.hist.end()); newp.assign(fin.hpdf.begin() + ex.eo.nhist, fin.hpdf.end()); }
+            const char *what = !same_bits(fo.state, fin.state) ? "chains" : !same_bits(fo.pv, fin.pv) ? "cached pdf values" : !same_bits(fo.hist, newh) ? "appended samples" : !same_bits(fo.hpdf, newp) ? "appended pdf values" : (ef.used.size() != ex.used.size() - p1) ? "number of draws" : nullptr;
+            if (what){ d.viol("C15:rerun-differs-from-fresh-state" + ctx, CJ, std::string("run(") + std::to_string(k.runs[1].first) + "," + std::to_string(k.runs[1].second) + ") after " + EDITNAME[k.edit] + " on a used state differs from the same run on a fresh state with the same points and answers in the " + what
+                + ": chains " + vstr(fin.state) + " vs " + vstr(fo.state) + ", cached pdf " + vstr(fin.pv) + " vs " + vstr(fo.pv) + ", appended pdf " + vstr(newp) + " vs " + vstr(fo.hpdf)); return; }
+        }else{
+            // the same two runs without the edit: none of these edits may change what the second run does (clearHistory only drops the earlier records)
+            Case kn{'C', k.runs, k.s, 0, 0}; Exec en; run_library(c, kn.runs, kn.s, en, 0); d.execs++;
+            Ref rn(c, true); if (!check_exec(c, kn, en, d, rn) || en.obs.size() != 2) return;
+            const RunObs &no = en.obs[1]; d.evals += 4;
+            std::vector<double> wh = no.hist, wp = no.hpdf; if (k.edit == 4){ size_t h0 = en.obs[0].hist.size(), p0 = en.obs[0].hpdf.size(); wh.assign(no.hist.begin() + h0, no.hist.end()); wp.assign(no.hpdf.begin() + p0, no.hpdf.end()); }
+            const char *what = !same_bits(no.state, fin.state) ? "chains" : !same_bits(no.pv, fin.pv) ? "cached pdf values" : !same_bits(wh, fin.hist) ? "history" : !same_bits(wp, fin.hpdf) ? "pdf history" : (en.used != ex.used) ? "random stream" : nullptr;
+            if (what){ d.viol("C15:edit-changes-run" + ctx, CJ, std::string("the runs with ") + EDITNAME[k.edit] + " in between differ from the same runs without it in the " + what + ": chains " + vstr(fin.state) + " vs " + vstr(no.state) + ", cached pdf " + vstr(fin.pv) + " vs " + vstr(no.pv) + ", pdf history " + vstr(fin.hpdf) + " vs " + vstr(wp)); return; }
+        }
+    }
+    Ref ref(c, true); check_exec(c, k, ex, d, ref); outcome_of(c, ex, ref, d);
+    (void) n; (void) dm;
+}
+
 // roles of the draws of an answer string according to the model alone (no library involved)
 static std::string model_roles(const Cfg &c, const Case &k, int which_exec){
-    Ref r(c, false); r.sc.reset(k.s);
-    if (which_exec == 0){ for(auto &rr : k.runs) r.run(rr.first, rr.second); }
+    Ref r(c, false, k.second != 0); r.sc.reset(k.s);
+    if (which_exec == 0){ for(size_t q=0;q<k.runs.size();q++){ if (q == 1 && k.edit > 0) r.apply_edit(k.edit, 0, 0); r.run(k.runs[q].first, k.runs[q].second); } }
     else { int T = 0; for(auto &rr : k.runs) T += rr.first + rr.second; r.run(0, T); }
     return r.roles;
 }
@@ -284,7 +370,7 @@ int main(int argc, char **argv){
     double dl = A.getd("--deadline", 0); if (dl > 0) vf::g_deadline = vf::now() + dl;
     if (A.has("--replay")){
         std::string v = vf::slurp(A.get("--replay")); std::string cs = vf::jget(v, "case"); Cfg c = Cfg::parse(vf::jget(cs, "cfg"));
-        Case k; k.kind = vf::jget(cs, "kind").empty() ? 'A' : vf::jget(cs, "kind")[0]; auto rv = vf::jints(vf::jget(cs, "runs")); for(size_t i=0;i+1<rv.size();i+=2) k.runs.push_back({(int) rv[i], (int) rv[i+1]}); k.s = str_parse(vf::jget(cs, "rng"));
+        Case k; k.kind = vf::jget(cs, "kind").empty() ? 'A' : vf::jget(cs, "kind")[0]; auto rv = vf::jints(vf::jget(cs, "runs")); for(size_t i=0;i+1<rv.size();i+=2) k.runs.push_back({(int) rv[i], (int) rv[i+1]}); k.s = str_parse(vf::jget(cs, "rng")); k.edit = atoi(vf::jget(cs, "edit").c_str()); k.second = atoi(vf::jget(cs, "second_start").c_str()); if (k.edit < 0 || k.edit >= NEDIT) k.edit = 0;
         shared_init();
         vf::Outcome o = vf::run_child([&](int fd){ Delta d; exec_case(c, k, d); for(auto &vv : d.viols) if (!vv.case_json.empty()) vf::wr(fd, vf::J().s("t","viol").s("sig", vv.sig).s("unit","replay").raw("case", vv.case_json).s("detail", vv.detail).str() + "\n"); }, 120.0);
         if (!o.out.empty()) vf::emit(o.out.substr(0, o.out.size() - 1));
@@ -329,7 +415,8 @@ int main(int argc, char **argv){
     vf::emit(vf::J().s("t","summary").i("units_total", (long long) U.size()).i("units_done", (long long) done)
         .s("bound", std::string("C15 tier=") + g_tier + ": chains{1,2,3} x dims{1,2} x forms x updates{none,uniform,gaussian,user} x differential{0,1,0.5} x domains{hypercube,halfspace,nothing} x pdfs{constant,peaked,boxzero,posterior(model,LikelihoodGaussIsotropic,uniform_prior)" + (th ? " [posterior not with the empty domain]" : " [quick: posterior only with the hypercube; for 3 chains half of the (domain, pdf) pairs]") + "}"
            + "; answer strings over {0,.25,.5,.75,1}: one iteration exhaustive to length min(one iteration, " + (th ? "7 (6 for 3 chains)" : "5") + ") at the start and at the end of the iteration; "
-           + (th ? "3 iterations with <= 2 deviations from 0.5" : "2 iterations with <= 1 deviation from 0.5 anywhere and <= 2 inside the first iteration") + "; run splittings (b1,c1,b2,c2) in {0,1,2}^4" + (th ? "" : " with total <= 4") + " x (default + every single deviation in the first " + (th ? "iteration" : "4 draws") + ")")
+           + (th ? "3 iterations with <= 2 deviations from 0.5" : "2 iterations with <= 1 deviation from 0.5 anywhere and <= 2 inside the first iteration") + "; run splittings (b1,c1,b2,c2) in {0,1,2}^4" + (th ? "" : " with total <= 4") + " x (default + every single deviation in the first " + (th ? "iteration" : "4 draws") + "); state edits: run(b1,c1); edit; run(b2,c2) for every such splitting x 7 edits {setState vector/callable to a second state, clearPDFvalues, clearHistory, setPDFvalues callable/vector, expandHistory} x "
+           + (th ? "(default answers + every single deviation in the first iteration of the second run)" : "(default answers + every symbol at the first acceptance draw of the second run)") + ", each compared with a fresh object (setState) or with the same runs without the edit")
         .b("exhaustive", done == U.size() && !vf::past_deadline()));
     return 0;
 }
